@@ -137,8 +137,64 @@ fn all_calls(m: &mut Matcher, case: &Case, hr: bool, nr: bool) -> Result<Vec<(Op
     Ok(out)
 }
 
+/// For needle lengths n (spread over the shards) and both character widths: the largest window length for which the
+/// matcher still takes its matrix from the scratch slab is found by bisection (the slab hook fires or not), then every
+/// window length around that frontier is run with the view-extent monitor watching. Sizes exactly at the "does it fit"
+/// decision are where an extent computed differently from the layout would show.
+fn frontier_sweep(opts: &Opts, rep: &mut Report) {
+    let mut m = Matcher::default();
+    let mut run = |m: &mut Matcher, n: usize, h: usize, wide: bool| -> bool {
+        let mut hay: Vec<char> = Vec::with_capacity(h);
+        hay.push('a');
+        hay.extend(std::iter::repeat('x').take(h - n));
+        hay.extend(std::iter::repeat('b').take(n - 1));
+        let mut needle = vec!['a'];
+        needle.extend(std::iter::repeat('b').take(n - 1));
+        let (ht, nt) = (Text::new(hay), Text::new(needle));
+        let before = SLAB_REPORTS.load(Ordering::Relaxed);
+        let mut idx = Vec::new();
+        let r = caught(|| m.fuzzy_indices(ht.view(!wide), nt.view(!wide), &mut idx));
+        if r.is_err() {
+            *m = Matcher::default();
+        }
+        SLAB_REPORTS.load(Ordering::Relaxed) > before
+    };
+    let mut frontiers = 0u64;
+    for wide in [false, true] {
+        let mut n = 2 + opts.shard as usize % 16;
+        while n <= 2048 {
+            if rep.elapsed() > opts.time_limit / 2.0 {
+                rep.note("frontier sweep stopped at half of the time limit".to_string());
+                return;
+            }
+            // bisection: lo fits (or nothing fits), hi does not
+            if run(&mut m, n, n + 1, wide) {
+                let (mut lo, mut hi) = (n + 1, 65_600usize);
+                while hi - lo > 1 {
+                    let mid = (lo + hi) / 2;
+                    if run(&mut m, n, mid, wide) {
+                        lo = mid
+                    } else {
+                        hi = mid
+                    }
+                }
+                frontiers += 1;
+                for h in lo.saturating_sub(3).max(n + 1)..=lo + 4 {
+                    run(&mut m, n, h, wide);
+                    rep.count("c10.window-lengths-run-at-the-slab-frontier");
+                }
+            }
+            n += 16;
+        }
+    }
+    rep.add("c10.slab-frontiers-located", frontiers);
+}
+
 pub fn run(opts: &Opts, pools: &Pools, rep: &mut Report) {
     install_slab_monitor();
+    if opts.replay.is_none() {
+        frontier_sweep(opts, rep);
+    }
     let props = m_match::Props::parse("C10");
     // the long lived matcher whose history must not matter
     let mut veteran = m_match::initial_matcher(opts.seed, opts.shard, 0);
